@@ -13,6 +13,15 @@ import (
 // ModuleFuncs returns every ssa function (including anonymous ones and methods) whose
 // package belongs to the falco module, optionally restricted to module-relative package prefixes.
 func (p *Program) ModuleFuncs(prefixes ...string) []*ssa.Function {
+	if p.Queried == nil {
+		p.Queried = map[string]bool{}
+	}
+	if len(prefixes) == 0 {
+		p.Queried[""] = true
+	}
+	for _, pre := range prefixes {
+		p.Queried[pre] = true
+	}
 	var out []*ssa.Function
 	seen := map[*ssa.Function]bool{}
 	var add func(f *ssa.Function)
@@ -236,7 +245,100 @@ func Reaches(a, b *ssa.BasicBlock) bool {
 // BackSlice computes the intra-procedural backward slice of v over SSA operands
 // (through phis, conversions, binops, calls' arguments, field/index addressing and loads).
 // Loads through an Alloc follow the stores into that Alloc.
+//
+// The slice looks into helpers: at a call of a function of the module (static callee with a body, not recursive on the
+// way, at most sliceDepth levels deep) it continues with the values the callee returns - all results for a call used as
+// a value, the selected result for an Extract - and a parameter of such a callee continues with the argument of the
+// call through which the callee was entered. Extracting a helper from a function therefore does not cut the slice.
 func BackSlice(v ssa.Value) map[ssa.Value]bool {
+	seen := map[ssa.Value]bool{}
+	type frame struct {
+		call *ssa.Call
+		fn   *ssa.Function
+	}
+	var stack []frame
+	var walk func(x ssa.Value)
+	enter := func(call *ssa.Call, results []int) {
+		callee := call.Common().StaticCallee()
+		if callee == nil || callee.Blocks == nil || callee.Pkg == nil || !strings.HasPrefix(callee.Pkg.Pkg.Path(), ModPath) || len(stack) >= sliceDepth {
+			return
+		}
+		for _, f := range stack {
+			if f.fn == callee {
+				return
+			}
+		}
+		stack = append(stack, frame{call, callee})
+		for _, rs := range ReturnSites(callee) {
+			for _, i := range results {
+				if i < len(rs.Results) {
+					walk(rs.Results[i])
+				}
+			}
+		}
+		stack = stack[:len(stack)-1]
+	}
+	walk = func(x ssa.Value) {
+		if x == nil {
+			return
+		}
+		if p, isParam := x.(*ssa.Parameter); isParam && len(stack) > 0 && stack[len(stack)-1].fn == p.Parent() {
+			// a parameter of the helper we are in: the argument of the call we came through (not memoised per value: the
+			// same parameter stands for another argument at another call)
+			top := stack[len(stack)-1]
+			seen[x] = true
+			for i, q := range top.fn.Params {
+				if q == p && i < len(top.call.Common().Args) {
+					stack = stack[:len(stack)-1]
+					walk(top.call.Common().Args[i])
+					stack = append(stack, top)
+				}
+			}
+			return
+		}
+		if seen[x] {
+			return
+		}
+		seen[x] = true
+		switch t := x.(type) {
+		case *ssa.UnOp:
+			walk(t.X)
+			if t.Op == token.MUL {
+				// load: follow stores to the same address value
+				followStores(t.X, walk)
+			}
+		case *ssa.Alloc:
+			followStores(t, walk)
+		case *ssa.Extract:
+			walk(t.Tuple)
+			if call, ok := t.Tuple.(*ssa.Call); ok {
+				enter(call, []int{t.Index})
+			}
+		case *ssa.Call:
+			for _, op := range t.Operands(nil) {
+				if *op != nil {
+					walk(*op)
+				}
+			}
+			if t.Common().Signature().Results().Len() == 1 {
+				enter(t, []int{0})
+			}
+		case ssa.Instruction:
+			for _, op := range t.Operands(nil) {
+				if *op != nil {
+					walk(*op)
+				}
+			}
+		}
+	}
+	walk(v)
+	return seen
+}
+
+// BackSliceLocal is the slice that stays inside the function of v (no look into callees): for rules that recognise a
+// marker by its shape (a field of a given name) rather than by value identity - inside a callee the same shape means
+// something else.
+func BackSliceLocal(v ssa.Value) map[ssa.Value]bool {
 	seen := map[ssa.Value]bool{}
 	var walk func(x ssa.Value)
 	walk = func(x ssa.Value) {
@@ -248,7 +350,6 @@ func BackSlice(v ssa.Value) map[ssa.Value]bool {
 		case *ssa.UnOp:
 			walk(t.X)
 			if t.Op == token.MUL {
-				// load: follow stores to the same address value
 				followStores(t.X, walk)
 			}
 		case *ssa.Alloc:
@@ -264,6 +365,9 @@ func BackSlice(v ssa.Value) map[ssa.Value]bool {
 	walk(v)
 	return seen
 }
+
+// sliceDepth bounds how many helpers deep BackSlice follows returned values.
+const sliceDepth = 3
 
 func followStores(addr ssa.Value, walk func(ssa.Value)) {
 	refs := addr.Referrers()
@@ -519,3 +623,53 @@ func isSpillCellOf(cell ssa.Value, param ssa.Value) bool {
 
 // IsSpillCellOf reports whether cell is the Alloc a parameter was spilled to.
 func IsSpillCellOf(cell ssa.Value, param ssa.Value) bool { return isSpillCellOf(cell, param) }
+
+// FunctionInventory: the names of all functions of the module that have a body (FnName form), sorted.
+func (p *Program) FunctionInventory() []string {
+	q := map[string]bool{}
+	for k, v := range p.Queried {
+		q[k] = v
+	}
+	var out []string
+	for _, fn := range p.ModuleFuncs() {
+		out = append(out, FnName(fn))
+	}
+	p.Queried = q
+	sort.Strings(out)
+	return out
+}
+
+// NewFunctionsIn: functions whose name is not in the baseline inventory and whose package lies under one of the given
+// module-relative prefixes ("" = whole module).
+func (p *Program) NewFunctionsIn(baseline map[string]bool, prefixes map[string]bool) []string {
+	q := map[string]bool{}
+	for k, v := range p.Queried {
+		q[k] = v
+	}
+	var out []string
+	var pres []string
+	all := false
+	for pre := range prefixes {
+		if pre == "" {
+			all = true
+		}
+		pres = append(pres, pre)
+	}
+	var fns []*ssa.Function
+	if all || len(pres) == 0 {
+		fns = p.ModuleFuncs()
+	} else {
+		fns = p.ModuleFuncs(pres...)
+	}
+	for _, fn := range fns {
+		if p.IsCanary(fn.Pos()) {
+			continue // the known-bad examples overlaid for canary rules are not part of the tree
+		}
+		if n := FnName(fn); !baseline[n] {
+			out = append(out, n)
+		}
+	}
+	p.Queried = q
+	sort.Strings(out)
+	return out
+}
